@@ -15,11 +15,12 @@ import (
 )
 
 type LossFrame struct {
-	MTU    uint16    `json:"mtu"`
-	NALs   []NALSpec `json:"nals,omitempty"`
-	OBUs   []OBUSpec `json:"obus,omitempty"`
-	RefEnc bool      `json:"ref_enc"`           // h264: packetise with the independent encoder
-	FUSize int       `json:"fu_size,omitempty"` // fragment size used by the independent encoder
+	MTU     uint16    `json:"mtu"`
+	NALs    []NALSpec `json:"nals,omitempty"`
+	OBUs    []OBUSpec `json:"obus,omitempty"`
+	RefEnc  bool      `json:"ref_enc"`            // h264: packetise with the independent encoder
+	FUSize  int       `json:"fu_size,omitempty"`  // fragment size used by the independent encoder
+	EmptyFU int       `json:"empty_fu,omitempty"` // independent encoder: 1 = empty START fragment, 2 = an empty middle fragment, 3 = both (RFC 6184 5.8 allows empty FUs)
 }
 
 // Garbage is an arbitrary input delivered before packet Pos of frame A (Pos >= the
@@ -31,11 +32,14 @@ type Garbage struct {
 }
 
 type LossCase struct {
-	Codec   string    `json:"codec"` // h264 | h264avc | av1
-	A       LossFrame `json:"a"`
-	B       LossFrame `json:"b"`
-	Garbage []Garbage `json:"garbage"`
-	Seed    uint64    `json:"seed"` // selects the subsets when A has more than 10 packets
+	Codec string    `json:"codec"` // h264 | h264avc | av1
+	A     LossFrame `json:"a"`
+	B     LossFrame `json:"b"`
+	// A2: an optional second lossy frame delivered (under the drawn mask A2Mask) between A and B
+	A2      *LossFrame `json:"a2,omitempty"`
+	A2Mask  uint32     `json:"a2_mask,omitempty"`
+	Garbage []Garbage  `json:"garbage"`
+	Seed    uint64     `json:"seed"` // selects the subsets when A has more than 10 packets
 }
 
 var subC15 = register("C15", "loss", checkC15)
@@ -65,6 +69,12 @@ func (f *LossFrame) packets(codec string) [][]byte {
 			}
 			if len(sizes) < 2 {
 				sizes = []int{len(n) - 2, 1}
+			}
+			if f.EmptyFU&2 != 0 {
+				sizes = append(sizes[:1], append([]int{0}, sizes[1:]...)...)
+			}
+			if f.EmptyFU&1 != 0 {
+				sizes = append([]int{0}, sizes...)
 			}
 			out = append(out, h264rtp.FUA(n, sizes)...)
 		}
@@ -140,6 +150,11 @@ func checkC15(r *run, c *LossCase) (CaseInfo, error) {
 	ci.class("codec:" + c.Codec)
 	a := c.A.packets(c.Codec)
 	b := c.B.packets(c.Codec)
+	var a2 [][]byte
+	if c.A2 != nil {
+		a2 = c.A2.packets(c.Codec)
+		ci.class("second-lossy-frame")
+	}
 	if len(a) == 0 || len(b) == 0 {
 		ci.class("degenerate-frame")
 
@@ -193,6 +208,11 @@ func checkC15(r *run, c *LossCase) (CaseInfo, error) {
 				feed(d, a[i])
 			}
 		}
+		for i, p := range a2 {
+			if c.A2Mask&(1<<uint(i%32)) != 0 {
+				feed(d, p)
+			}
+		}
 		open := opensTrain(c.Codec, a, m)
 		if open {
 			openSubsets++
@@ -227,6 +247,9 @@ func genLossFrame(t *rapid.T, codec string, mustFragment bool, label string) Los
 	f := LossFrame{}
 	if codec == "av1" {
 		f.MTU = uint16(biased(t, label+"mtu", 4, 200, 4, 5, 6, 8, 16, 50))
+		if rapid.IntRange(0, 9).Draw(t, label+"bigmtu") == 0 {
+			f.MTU = uint16(rapid.SampledFrom([]int{500, 1200, 9000, 40000}).Draw(t, label+"bigmtuval"))
+		}
 		mtu := int(f.MTU)
 		k := rapid.IntRange(1, 4).Draw(t, label+"nobus")
 		for i := 0; i < k; i++ {
@@ -245,9 +268,15 @@ func genLossFrame(t *rapid.T, codec string, mustFragment bool, label string) Los
 		return f
 	}
 	f.MTU = uint16(biased(t, label+"mtu", 4, 120, 4, 5, 6, 8, 16, 50))
+	if rapid.IntRange(0, 9).Draw(t, label+"bigmtu") == 0 {
+		f.MTU = uint16(rapid.SampledFrom([]int{500, 1200, 1400, 9000, 40000}).Draw(t, label+"bigmtuval")) // abandoned fragments of 1 KiB .. 100 KiB
+	}
 	mtu := int(f.MTU)
 	f.RefEnc = genBool(t, label+"refenc")
 	f.FUSize = rapid.IntRange(1, maxi(1, mtu-2)).Draw(t, label+"fusize")
+	if f.RefEnc && rapid.IntRange(0, 3).Draw(t, label+"emptyfu") == 0 {
+		f.EmptyFU = rapid.IntRange(1, 3).Draw(t, label+"emptyfuwhere")
+	}
 	k := rapid.IntRange(1, 3).Draw(t, label+"nnals")
 	for i := 0; i < k; i++ {
 		n := NALSpec{Type: rapid.SampledFrom([]uint8{1, 1, 5, 5, 6, 2, 3}).Draw(t, label+"type"), NRI: uint8(rapid.IntRange(0, 3).Draw(t, label+"nri")),
@@ -258,6 +287,12 @@ func genLossFrame(t *rapid.T, codec string, mustFragment bool, label string) Los
 		}
 		f.NALs = append(f.NALs, n)
 	}
+	if label == "b." && rapid.IntRange(0, 3).Draw(t, label+"paramsets") == 0 {
+		// the frame starts with an SPS/PPS pair (a STAP-A from the library's payloader)
+		sps := NALSpec{Type: 7, NRI: 3, Len: rapid.IntRange(2, 12).Draw(t, label+"spslen"), Seed: rapid.Uint64().Draw(t, label+"spsseed"), StartCode: 4}
+		pps := NALSpec{Type: 8, NRI: 3, Len: rapid.IntRange(2, 6).Draw(t, label+"ppslen"), Seed: rapid.Uint64().Draw(t, label+"ppsseed"), StartCode: 3}
+		f.NALs = append([]NALSpec{sps, pps}, f.NALs...)
+	}
 
 	return f
 }
@@ -266,6 +301,11 @@ func genLossCase(t *rapid.T) *LossCase {
 	c := &LossCase{Codec: rapid.SampledFrom([]string{"h264", "h264avc", "av1", "av1"}).Draw(t, "codec"), Seed: rapid.Uint64().Draw(t, "seed")}
 	c.A = genLossFrame(t, c.Codec, true, "a.")
 	c.B = genLossFrame(t, c.Codec, rapid.IntRange(0, 3).Draw(t, "bfrag") != 0, "b.")
+	if rapid.IntRange(0, 4).Draw(t, "hasa2") == 0 {
+		a2 := genLossFrame(t, c.Codec, true, "a2.")
+		c.A2 = &a2
+		c.A2Mask = rapid.Uint32().Draw(t, "a2mask")
+	}
 	ng := rapid.SampledFrom([]int{0, 0, 1, 1, 2, 5}).Draw(t, "ngarbage")
 	var aPkts [][]byte
 	if ng > 0 {
@@ -301,7 +341,7 @@ func genLossCase(t *rapid.T) *LossCase {
 	return c
 }
 
-const ruleC15 = "rapid draws (codec in {H264Packet Annex-B, H264Packet AVC, AV1Depacketizer}, frame A with at least one fragmented unit packetised by the library's payloader or (H264) the independent encoder, frame B of any shape, 0-5 garbage inputs - random strings, stray continuation fragments or damaged copies of A's own packets - interleaved at drawn positions before, inside and after A and always delivered); for A of up to 10 packets ALL 2^n delivery subsets are enumerated in order (1024 drawn subsets beyond that), each followed by the complete frame B; oracle: for every packet of B the output bytes, error-ness and AV1 Z/Y/N of the used receiver equal those of a fresh receiver fed B only. Non-trivial = case in which some subset leaves a fragment train open (start delivered, end lost) and B contains a fragmented unit; evaluations count cases plus enumerated subsets; distinct = FNV-64 of the JSON case"
+const ruleC15 = "rapid draws (codec in {H264Packet Annex-B, H264Packet AVC, AV1Depacketizer}, frame A with at least one fragmented unit packetised by the library's payloader or (H264) the independent encoder, optionally a second lossy frame delivered under a drawn mask, frame B of any shape (sometimes starting with an SPS/PPS pair), 0-5 garbage inputs - random strings, stray continuation fragments or damaged copies of A's own packets - interleaved at drawn positions before, inside and after A and always delivered); for A of up to 10 packets ALL 2^n delivery subsets are enumerated in order (1024 drawn subsets beyond that), each followed by the complete frame B; oracle: for every packet of B the output bytes, error-ness and AV1 Z/Y/N of the used receiver equal those of a fresh receiver fed B only. Non-trivial = case in which some subset leaves a fragment train open (start delivered, end lost) and B contains a fragmented unit; evaluations count cases plus enumerated subsets; distinct = FNV-64 of the JSON case"
 
 func TestC15(t *testing.T) {
 	r := begin(t, "C15", "fault_enumeration", ruleC15)
